@@ -19,8 +19,8 @@ broken translator obligation):
                `yield e` (generators), `self.<EFFECT>(ints...)` as a statement (see "effects").
   expressions: int constants, names, tuples, `t[const]` on tuple-typed names, `s.start` / `s.stop` on slice-typed
                names, `e.attr` on record-typed names (`rec:` types), + - * // % ** unary -, & | ^ ~ << >>, comparisons
-               (also chained: `a <= b <= c`), `a if c else b`, and / or / not in conditions, min / max of two
-               arguments, abs, int(e), len(list), `sum(1 for i in range(N) if c)`, `int(sqrt(e))` (see below),
+               (also chained: `a <= b <= c`), `a if c else b`, and / or / not in conditions, min / max of ints
+               (several arguments or one literal tuple), abs, int(e), len(list), `sum(1 for i in range(N) if c)`, `int(sqrt(e))` (see below),
                `Enum.member` of an IntEnum class of the same file or imported by `from <module of the repo> import`
                (the member's integer literal), calls of functions translated earlier in FUNCS (tuple results via
                `let (a, b) := ...`), `f(d - s for s, d in zip(a, b))` for 3-tuples `a`, `b` (component-wise tuple).
@@ -159,6 +159,15 @@ FUNCS = [
     # `self.scp_data_length` is a caching property (its first read may query the machine); its value is an input here
     ("rig/machine_control/machine_controller.py", "MachineController._send_ffd",
      ["obj:scp_data_length", "int", "bytes", "int"], "exc:calls:int,int,int,int,int,int,int,bytes"),
+    # ---- third round: the mechanisms the properties are anchored in --------------------------------------
+    ("rig/machine_control/machine_controller.py", "MachineController.write_across_link",
+     ["obj:scp_data_length", "int", "bytes", "int", "int", "int"],
+     "exc:calls:int,int,int,int,int,int,int,bytes,int"),
+    ("rig/machine_control/scp_connection.py", "SCPConnection.write.packets",
+     ["int", "bytes", "buffer_size=int", "x=int", "y=int", "p=int"], "exc:gen:int,int,int,int,int,int,int,bytes"),
+    ("rig/machine_control/scp_connection.py", "SCPConnection.read.packets",
+     ["int", "ignored", "buffer_size=int", "x=int", "y=int", "p=int", "address=int"],
+     "exc:gen:int,int,int,int,int,int,int"),
     ("rig/machine_control/regions.py", "RegionCoreTree.__init__",
      ["obj:base_x,base_y,scale,shift,level;skip:locally_selected,subregions", "int", "int", "int"], "none"),
 ]
@@ -175,6 +184,14 @@ NAT_KEYED = ("_direction_link_lookup",)
 EFFECTS = ("_send_scp",)
 # guard decorators: the generated definition is the behaviour when the guard passes
 GUARDS = ("_if_not_closed",)
+# decorators `@X.<name>()` that only supply default values of arguments (the generated definition takes every
+# argument explicitly)
+TRANSPARENT_DECORATORS = ("use_contextual_arguments",)
+# module-level dicts keyed by a pair of small ints, regenerated (flattened, row-major) by another translator module:
+# name -> (Lean list of Nat, rows, columns); `D[(a, b)]` raises KeyError outside
+PAIR_DICTS = {"address_length_dtype": ("Rig.Gen.Scp.dtypeTable", 4, 4)}
+# named tuples whose construction may be yielded: the positional arguments kept, keyword arguments ignored
+RECORD_CALLS = {"scpcall": ("callback",)}
 # classes whose construction may be returned: the integer arguments kept (by position)
 CONSTRUCTORS = {"SlicedMemoryIO": (1, 2)}
 
@@ -213,6 +230,15 @@ def pySlice {α : Type} (l : List α) (a b : Int) : List α :=
   let b' : Int := if b < 0 then max (b + n) 0 else min b n
   (l.drop a'.toNat).take (b' - a').toNat
 
+/-- `D[(a, b)]` for a dict keyed by the pairs `(i, j)`, `i < rows`, `j < cols`, given as the row-major list of
+its values; `KeyError` outside -/
+def pyPairGet (t : List Nat) (rows cols : Nat) (a b : Int) : Except String Int :=
+  if 0 ≤ a ∧ a < (rows : Int) ∧ 0 ≤ b ∧ b < (cols : Int) then
+    match t[cols * a.toNat + b.toNat]? with
+    | some v => Except.ok (v : Int)
+    | none => Except.error "KeyError"
+  else Except.error "KeyError"
+
 /-- Python `int(math.sqrt(n))` (integer square root, exact below 2^52; `ValueError: math domain error` for n < 0) -/
 def pyIsqrt (n : Int) : Except String Int :=
   if n < 0 then Except.error "ValueError" else Except.ok ((Nat.sqrt n.toNat : Nat) : Int)
@@ -241,6 +267,8 @@ def lean_ty(t):
     if t.startswith("exc:"):
         return "Except String " + paren(lean_ty(t[4:]))
     if t.startswith("gen:"):
+        if "," in t:
+            return "List (" + prod([BASE_TY[x] for x in t[4:].split(",")]) + ")"
         return "List " + paren(lean_ty(t[4:]))
     if t.startswith("calls:"):
         return "List (" + prod(calls_types(t)) + ")"
@@ -407,7 +435,14 @@ class Tr(object):
         return self.base().startswith(("gen:", "calls:"))
 
     def enum_member(self, n):
-        """`Enum.member` -> int value or None"""
+        """`Enum.member` / `module.Enum.member` -> int value or None"""
+        if isinstance(n, ast.Attribute) and isinstance(n.value, ast.Attribute) and isinstance(n.value.value, ast.Name) \
+                and n.value.value.id in self.module_enums and n.value.value.id not in self.lty:
+            en = self.module_enums[n.value.value.id]
+            if n.value.attr in en:
+                if n.attr not in en[n.value.attr]:
+                    raise NotImplementedError("%s has no member %s" % (n.value.attr, n.attr))
+                return en[n.value.attr][n.attr]
         if isinstance(n, ast.Attribute) and isinstance(n.value, ast.Name) and n.value.id in self.enums \
                 and n.value.id not in self.lty:
             members = self.enums[n.value.id]
@@ -491,7 +526,7 @@ class Tr(object):
         """does any of the AST nodes contain a construct translated as a raising expression?"""
         for x in nodes:
             for n in ast.walk(x):
-                if self.is_list_index(n):
+                if self.is_list_index(n) or self.pair_dict(n) is not None:
                     return True
                 if isinstance(n, ast.Call) and isinstance(n.func, ast.Name) and n.func.id == "sqrt":
                     return True
@@ -505,7 +540,23 @@ class Tr(object):
         return t[1:-1] if t.startswith("(") and t.endswith(")") else t
 
     # ---- expressions --------------------------------------------------------
+    def pair_dict(self, n):
+        """`D[(a, b)]` / `module.D[(a, b)]` for D in PAIR_DICTS -> (D, a, b) or None"""
+        if not (isinstance(n, ast.Subscript) and isinstance(n.slice, ast.Tuple) and len(n.slice.elts) == 2):
+            return None
+        v = n.value
+        name = v.id if isinstance(v, ast.Name) else v.attr if (
+            isinstance(v, ast.Attribute) and isinstance(v.value, ast.Name) and v.value.id in self.module_enums) else None
+        if name in PAIR_DICTS and name not in self.lty:
+            return name, n.slice.elts[0], n.slice.elts[1]
+        return None
+
     def e(self, n):
+        pd = self.pair_dict(n)
+        if pd is not None:
+            lean, rows, cols = PAIR_DICTS[pd[0]]
+            a, b = self.e(pd[1]), self.e(pd[2])
+            return self.raising("(pyPairGet %s %d %d %s %s)" % (lean, rows, cols, a, b))
         if (isinstance(n, ast.Subscript) and isinstance(n.value, ast.Name) and isinstance(n.slice, ast.Slice)
                 and self.lty.get(ident(n.value.id), "").startswith("List ")):
             # l[a:b] (no step): Python's clamping slice
@@ -649,8 +700,16 @@ class Tr(object):
             return self.ite(n.test, lambda: self.e(n.body), lambda: self.e(n.orelse))
         if isinstance(n, ast.Call) and isinstance(n.func, ast.Name):
             f = n.func.id
-            if f in ("min", "max") and len(n.args) == 2 and not n.keywords:
-                return "(%s %s %s)" % (f, self.e(n.args[0]), self.e(n.args[1]))
+            if f in ("min", "max") and not n.keywords:
+                # min(a, b, ...) / min((a, b, ...)) over ints (a literal tuple / list as the single argument)
+                xs = n.args
+                if len(xs) == 1 and isinstance(xs[0], (ast.Tuple, ast.List)):
+                    xs = xs[0].elts
+                if len(xs) >= 2 and all(self.tyof(x) == "Int" for x in xs):
+                    r = self.e(xs[0])
+                    for x in xs[1:]:
+                        r = "(%s %s %s)" % (f, r, self.e(x))
+                    return r
             # int(sqrt(e)): raising, hoisted in front of the statement
             if (f == "int" and len(n.args) == 1 and isinstance(n.args[0], ast.Call)
                     and isinstance(n.args[0].func, ast.Name) and n.args[0].func.id == "sqrt"
@@ -873,14 +932,25 @@ class Tr(object):
         if isinstance(s.value, ast.Yield):
             if not self.base().startswith("gen:") or s.value.value is None:
                 raise NotImplementedError("yield in a function not declared gen:")
-            return s.value.value
+            v = s.value.value
+            if isinstance(v, ast.Call) and isinstance(v.func, ast.Name) and v.func.id in RECORD_CALLS \
+                    and v.func.id not in self.lty:
+                ignored = RECORD_CALLS[v.func.id]
+                n = len(self.base()[4:].split(","))
+                if len(v.args) != n or any(k.arg not in ignored for k in v.keywords):
+                    raise NotImplementedError("record %s with %d positional arguments" % (v.func.id, len(v.args)))
+                return ast.Tuple(elts=list(v.args), ctx=ast.Load())
+            return v
         c = s.value
         if (isinstance(c, ast.Call) and isinstance(c.func, ast.Attribute) and isinstance(c.func.value, ast.Name)
                 and c.func.value.id == "self" and c.func.attr in EFFECTS):
-            if not self.base().startswith("calls:") or c.keywords or len(c.args) != len(calls_types(self.base())):
-                raise NotImplementedError("effect call %s with %d arguments / keywords in a function declared %s"
-                                          % (c.func.attr, len(c.args), self.ret))
-            return ast.Tuple(elts=list(c.args), ctx=ast.Load())
+            # keyword arguments follow the positional ones, in source order (the declared `calls:` arity fixes the shape)
+            args = list(c.args) + [k.value for k in c.keywords]
+            if not self.base().startswith("calls:") or any(k.arg is None for k in c.keywords) \
+                    or len(args) != len(calls_types(self.base())):
+                raise NotImplementedError("effect call %s with %d arguments in a function declared %s"
+                                          % (c.func.attr, len(args), self.ret))
+            return ast.Tuple(elts=args, ctx=ast.Load())
         return None
 
     def assigned(self, stmts):
@@ -1413,11 +1483,34 @@ def visible_enums(repo, rel, tree):
     return out
 
 
+def module_enums(repo, rel, tree):
+    """modules of the repo imported as a name (`from . import consts`, `from rig.machine_control import consts`):
+    name -> {Enum: {member: value}}"""
+    out = {}
+    pkg = os.path.dirname(rel).split("/")
+    for n in tree.body:
+        if not isinstance(n, ast.ImportFrom):
+            continue
+        base = (pkg[:len(pkg) - (n.level - 1)] if n.level else []) + (n.module.split(".") if n.module else [])
+        for a in n.names:
+            path = os.path.join(repo, *(base + [a.name])) + ".py"
+            if a.asname is None and os.path.exists(path):
+                out[a.name] = int_enums(ast.parse(open(path).read()), values_only=False)
+    return out
+
+
 def find_def(tree, rel, qual):
     scope, cls = tree, None
     parts = qual.split(".")
-    if len(parts) > 2:
+    if len(parts) > 3:
         raise NotImplementedError("nested name " + qual)
+    if len(parts) == 3:
+        # Class.method.nested: a function defined inside a method
+        outer, _ = find_def(tree, rel, ".".join(parts[:2]))
+        fn = [n for n in ast.walk(outer) if isinstance(n, ast.FunctionDef) and n.name == parts[2] and n is not outer]
+        if len(fn) != 1:
+            raise NotImplementedError("%s: %d definitions of %s" % (rel, len(fn), qual))
+        return fn[0], parts[0]
     if len(parts) == 2:
         cs = [n for n in tree.body if isinstance(n, ast.ClassDef) and n.name == parts[0]]
         if len(cs) != 1:
@@ -1436,6 +1529,12 @@ def translate(repo, rel, fname, ptypes, ret, done=None):
         ret = "exc:int"
     tree = ast.parse(open(os.path.join(repo, rel)).read())
     fn, cls = find_def(tree, rel, fname)
+    nested_def = fname.count(".") == 2
+    if nested_def:
+        cls = None
+    fn.decorator_list = [d for d in fn.decorator_list if not (
+        isinstance(d, ast.Call) and not d.args and not d.keywords and isinstance(d.func, ast.Attribute)
+        and d.func.attr in TRANSPARENT_DECORATORS)]
     decos = [d.id for d in fn.decorator_list if isinstance(d, ast.Name)]
     if len(decos) != len(fn.decorator_list) or any(
             d not in ("property", "classmethod", "staticmethod") + GUARDS for d in decos):
@@ -1444,6 +1543,13 @@ def translate(repo, rel, fname, ptypes, ret, done=None):
     if a.vararg or a.kwarg or a.kwonlyargs or getattr(a, "posonlyargs", []):
         raise NotImplementedError("%s: parameter kinds" % fname)
     params = [x.arg for x in a.args]
+    # closure variables of a nested function (`name=type` entries after the parameters): extra parameters
+    closure = [t.split("=", 1) for t in ptypes if "=" in t]
+    ptypes = [t for t in ptypes if "=" not in t]
+    if closure and fname.count(".") < 2 and not nested_def:
+        raise NotImplementedError("%s: closure variables of a function that is not nested" % fname)
+    params = params + [c[0] for c in closure]
+    ptypes = ptypes + [c[1] for c in closure]
     is_classmethod = "classmethod" in decos
     if is_classmethod:
         if params[:1] != ["cls"]:
@@ -1478,6 +1584,7 @@ def translate(repo, rel, fname, ptypes, ret, done=None):
                 types[p] = "list"
     tr = Tr(types, cls=cls, enums=visible_enums(repo, rel, tree), done=done, attrs=attrs, recs=recs)
     tr.local_enums = local_enums
+    tr.module_enums = module_enums(repo, rel, tree)
     tr.obj_spec = next((t for t in ptypes if t.startswith("obj:")), None)
     tr.lty = lty
     tr.ret = ret
@@ -1573,7 +1680,7 @@ def is_ignored_store(s, types):
 
 
 def gen_pyfun(repo):
-    s = HEADER + "import Mathlib.Data.Int.Bitwise\nimport RigModel.Gen.Spinn5\nimport RigModel.Gen.Links\nset_option linter.unusedVariables false\nnamespace Rig.Gen.PyFun\n\n"
+    s = HEADER + "import Mathlib.Data.Int.Bitwise\nimport RigModel.Gen.Spinn5\nimport RigModel.Gen.Links\nimport RigModel.Gen.Scp\nset_option linter.unusedVariables false\nnamespace Rig.Gen.PyFun\n\n"
     s += PRELUDE
     done = {}
     for rel, fname, ptypes, ret in FUNCS:
